@@ -512,7 +512,7 @@ func main() {
 	st.Sample(map[string]interface{}{"case": "3 arbiters 2 candidates votes 50/30/10/7/3 of 100, reward 1000000, V3", "out": func() obs { o, _, _ := runCase(mk(3, 2, []int64{50, 30, 10, 7, 3}, 100, 1000000, 3500)); return o }()})
 	st.Sample(map[string]interface{}{"case": "zero-vote round, 2 arbiters, reward 1000000, V3", "out": func() obs { o, _, _ := runCase(mk(2, 0, []int64{0, 0}, 0, 1000000, 3500)); return o }()})
 
-	for i := 0; i < run.N(700, 30000); i++ {
+	for i := 0; i < run.N(700, 10000); i++ {
 		one(gen(), "gen")
 	}
 	st.Traces = st.Evals
